@@ -29,6 +29,10 @@ func planC02(c *Ctx) epochPlan {
 		pl.deepDev = 2
 		pl.shards = 16
 	}
+	// dedicated scenarios of the known finding (single-point crossover kept on a random population)
+	pl.scenarios = append(pl.scenarios,
+		EpochScenario{Seed: "randsp", Cfg: 3, Fit: 6, Policy: "R2", Mode: "perspecies", Epochs: 8},
+		EpochScenario{Seed: "randsp", Cfg: 0, Fit: 6, Policy: "A", Mode: "whole", Epochs: 6})
 	return pl
 }
 
